@@ -47,6 +47,7 @@ def alphabet(tier, wide=None):
         {"s": A, "op": "store", "set": "1", "mode": "+", "flags": "\\Recent"},
         {"s": A, "op": "store", "set": "1", "mode": "-", "flags": "\\Recent"},
         {"s": A, "op": "fetch", "set": "1", "items": "(FLAGS)"},
+        {"s": A, "op": "fetch", "set": "2", "items": "(FLAGS)"},  # \\Recent stays on the lower-numbered message only
         {"s": A, "op": "fetch", "set": "1:*", "items": "(FLAGS)", "uid": True},
         {"s": A, "op": "fetch", "set": "1", "items": "BODY[]"},
         {"s": A, "op": "fetch", "set": "2", "items": "BODY.PEEK[]"},
@@ -81,7 +82,8 @@ def run(tier, seed, jobs):
     return run_h(PROP, RULES, plans, ("C04",), jobs, seed,
                  ["two read-write sessions on INBOX(2) (B may switch to EXAMINE); flag lists as in the alphabet "
                   "(system flags, $Fwd, keywords equal to MH sequence names in the thorough tier)",
-                  "\\Recent and the derived `unseen` marker are not compared, except: `unseen` present iff \\Seen absent",
+                  "\\Recent and the derived `unseen` marker are not compared with a model value, except: `unseen` present iff \\Seen absent; "
+                  "\\Recent never comes back for a message within one session's stream or in .mh_sequences, and no STORE changes the folder's Recent sequence",
                   "a session's flag knowledge is the last FLAGS value it was sent per message; checked when each command ends and at sync points"],
                  time_budget=85 if tier == "quick" else 1500)
 
